@@ -138,6 +138,10 @@ Definition between_bounds (op : binop) (lo hi : expr Q) (slo shi : script) : scr
 
 Definition int_value (z : Z) : value := V TInt (Some (PInt z)).
 
+(* (BinOper::In | NotIn, SimpleExpr::Tuple(t)) if t.is_empty() *)
+Definition is_empty_in (op : binop) (r : expr Q) : bool :=
+  match op, r with BIn, ETuple [] | BNotIn, ETuple [] => true | _, _ => false end.
+
 (* prepare_simple_expr (common = false) / prepare_simple_expr_common (common = true) *)
 Fixpoint rexpr (common : bool) (e : expr Q) {struct e} : script :=
   match e with
@@ -161,18 +165,20 @@ Fixpoint rexpr (common : bool) (e : expr Q) {struct e} : script :=
   | EBinary l op r =>
       let one := EValue (int_value 1) in
       let two := EValue (int_value 2) in
-      match op, r with
-      | BIn, ETuple [] => binary_expr one BEqual two [WVal (int_value 1)] [WVal (int_value 2)]
-      | BNotIn, ETuple [] => binary_expr one BEqual one [WVal (int_value 1)] [WVal (int_value 1)]
-      | _, _ =>
-          let sr := match r with
-                    | EBinary lo BAnd hi =>
-                        if is_between op then between_bounds op lo hi (rexpr false lo) (rexpr false hi)
-                        else rexpr false r
-                    | _ => rexpr false r
-                    end in
-          binary_expr l op r (rexpr false l) sr
-      end
+      if is_empty_in op r then
+        (* `x IN ()` / `x NOT IN ()` are rewritten to constant comparisons *)
+        match op with
+        | BIn => binary_expr one BEqual two [WVal (int_value 1)] [WVal (int_value 2)]
+        | _ => binary_expr one BEqual one [WVal (int_value 1)] [WVal (int_value 1)]
+        end
+      else
+        let sr := match r with
+                  | EBinary lo BAnd hi =>
+                      if is_between op then between_bounds op lo hi (rexpr false lo) (rexpr false hi)
+                      else rexpr false r
+                  | _ => rexpr false r
+                  end in
+        binary_expr l op r (rexpr false l) sr
   | ESubQuery op q =>
       (match op with Some o => opt_text (t_sqop T (sqop_key o)) | None => [] end) ++
       [ws "("] ++ render_q q ++ [ws ")"]
